@@ -43,6 +43,8 @@ def GEN2(q, it1, cond1, it2, elt):
     """any/all(elt for x in it1 if cond1 for y in it2): the filter sits on the OUTER clause"""
     return {"k": "gen2", "q": q, "it": it1, "cond": cond1, "it2": it2, "elt": elt}
 V2 = {"k": "var2"}
+def LISTCOMP(it, elt, cond=None):
+    return {"k": "listcomp", "it": it, "elt": elt, "cond": cond if cond is not None else C(B(True))}
 def HELPER(f, fields, strs): return {"k": "helper", "f": f, "fields": list(fields), "strs": [[ord(c) for c in s] for s in strs]}
 def SUBSCR(a, i): return {"k": "sub", "a": a, "i": i}
 def IFEXP(c, a, b): return {"k": "ifexp", "c": c, "a": a, "b": b}
@@ -82,6 +84,8 @@ def src(e, vn="x"):
         s = f"{e['q']}({_src(e['elt'], v2)} for {v2} in {src(e['it'])}"
         if e["hasif"]: s += f" if {_src(e['cond'], v2)}"
         return s + ")"
+    if k == "listcomp":
+        return f"[{_src(e['elt'], 'x')} for x in {src(e['it'])} if {_src(e['cond'], 'x')}]"
     if k == "helper":
         strs = ["".join(map(chr, q)) for q in e["strs"]]
         if e["f"] == "field_regex":
@@ -103,7 +107,7 @@ src_ = src
 def supported_interpreted(e):
     """Is the expression inside the documented language of the interpreted engine?"""
     k = e["k"]
-    if k in ("neg", "sub", "ifexp"): return False
+    if k in ("neg", "sub", "ifexp", "listcomp"): return False
     if k == "bin" and e["op"] in BINOPS_UNSUP: return False
     for key in ("a", "b", "c", "it", "elt", "cond", "it2"):
         if key in e and isinstance(e[key], dict) and not supported_interpreted(e[key]): return False
@@ -234,6 +238,26 @@ def nested_records():
     return recs, envs_
 
 
+def layout_records():
+    """records of ONE type name in different layouts (two versions of a record type), met one after the other: the typed
+    matchers look at the fields of the record in front of them, not at those of the first layout they saw"""
+    from flow.record import RecordDescriptor
+
+    La = RecordDescriptor("t/lay", [("string", "s")])
+    Lb = RecordDescriptor("t/lay", [("varint", "n"), ("string", "s"), ("string", "extra"), ("boolean", "flag")])
+    Lc = RecordDescriptor("t/lay", [("varint", "s"), ("string", "n")])          # the same names with the types swapped
+
+    def env(D, vals):
+        ft = D.get_field_tuples()
+        e = {n: v for (t, n), v in zip(ft, vals)}
+        e["$types"] = {"t": "meta", "v": {n: t for t, n in ft}}
+        e["$order"] = {"t": "meta", "v": [n for t, n in ft]}
+        return e
+
+    plan = [(La, ["q"], [S("q")]), (Lb, [50, "q", "zz", True], [I(50), S("q"), S("zz"), B(True)]), (La, ["a"], [S("a")]), (Lc, [1, "b"], [I(1), S("b")]), (Lb, [0, "x", "a", False], [I(0), S("x"), S("a"), B(False)])]
+    return [D(*raw, _generated=None) for D, raw, _ in plan], [env(D, vals) for D, _, vals in plan]
+
+
 def wrapper_named_records():
     """record types with a FIELD literally called `record` (the name of the slot a wrapped record keeps its record in), holding
     a record that has fields the outer one lacks and lacks fields the outer one has -> (real records, environments)"""
@@ -261,6 +285,14 @@ def wrapper_named_exprs():
     for o in ("Eq", "NotEq", "In"):
         for f in ("m", "s", "w"):
             out.append((CMP(o, F(f), C(S("a"))), {"group": "cmp_on_record_named_field", "op": o, "field": f}))
+    # missing fields whose NAMES are what a mapping (or any container) calls its methods: a record that lacks the field lacks it
+    for nm in ("keys", "values", "items", "get", "copy", "update", "index", "count"):
+        for o in ("Eq", "NotEq", "In", "NotIn", "Lt", "GtE"):
+            out.append((CMP(o, F(nm), C(S("a"))), {"group": "cmp_on_method_named_missing_field", "op": o, "field": nm}))
+            out.append((CMP(o, C(S("a")), F(nm)), {"group": "cmp_on_method_named_missing_field", "op": o, "field": nm, "side": "right"}))
+        out.append((NOT(CMP("Eq", F(nm), C(I(1)))), {"group": "cmp_on_method_named_missing_field", "op": "not-eq", "field": nm}))
+        for fn in ("field_equals", "field_contains", "field_regex"):
+            out.append((HELPER(fn, [nm, "s"], ["a"]), {"group": "helper_on_method_named_missing_field", "fn": fn, "fields": nm + ",s"}))
     return out
 
 
@@ -394,6 +426,10 @@ def c07_exprs(rnd, budget):
     # forms OUTSIDE the language (subscript, conditional expression): alone, and as direct / nested operands of and / or / not / comparisons / generators
     unsup_atoms = [CMP("Eq", SUBSCR(F("l"), 0), C(S("a"))), CMP("Eq", SUBSCR(F("s"), 0), C(S("A"))), CMP("Eq", SUBSCR(F("l"), 1), C(S("b"))), CMP("In", SUBSCR(F("s"), 0), F("l")),
                    CMP("Eq", IFEXP(F("t"), C(I(1)), C(I(0))), C(I(1))), IFEXP(F("t"), CMP("Eq", F("n"), C(I(1))), CMP("Eq", F("s"), C(S("a")))), SUBSCR(F("l"), 0), CMP("Eq", SUBSCR(TUP(C(I(5)), C(I(6))), 1), C(I(6)))]
+    # a list comprehension (outside the language) used as a VALUE: its truth value and its equality with a list
+    lc_all, lc_none, lc_some = LISTCOMP(F("l"), V), LISTCOMP(F("l"), V, CMP("Eq", V, C(S("zz")))), LISTCOMP(F("l"), V, CMP("Eq", V, C(S("a"))))
+    unsup_atoms += [lc_none, lc_some, CMP("Eq", lc_all, F("l")), CMP("NotEq", lc_all, F("l")), CMP("Eq", lc_some, LST(C(S("a")))), CMP("In", C(S("a")), lc_all),
+                    CMP("Eq", LISTCOMP(LST(C(I(1)), C(I(2))), BIN("Add", V, C(I(1)))), LST(C(I(2)), C(I(3))))]
     plain_cmps = [CMP("Eq", F("n"), C(I(0))), CMP("Eq", F("n"), C(I(1))), CMP("NotEq", F("s"), C(S(""))), C(B(True)), C(B(False)), F("t")]
     unsup = list(unsup_atoms)
     for u in unsup_atoms:
